@@ -4,8 +4,10 @@ package interp
 // list in one opaque element, Unpack returns it. Byte-level ABI layout is not modelled.
 
 import (
+	"encoding/json"
 	"fmt"
 	"go/types"
+	"strings"
 )
 
 type abiBlob struct {
@@ -69,4 +71,215 @@ func init() {
 		}
 		return iface{}
 	}
+}
+
+// ---------------------------------------------------------------------------------------------
+// abi.JSON: parse the contract ABI natively and build the abi.ABI value (names, argument lists,
+// signatures, 4-byte selectors and event ids); argument Types stay zero (packing is opaque).
+
+type abiJSONArg struct {
+	Name       string       `json:"name"`
+	Type       string       `json:"type"`
+	Indexed    bool         `json:"indexed"`
+	Components []abiJSONArg `json:"components"`
+}
+
+type abiJSONEntry struct {
+	Type            string       `json:"type"`
+	Name            string       `json:"name"`
+	Inputs          []abiJSONArg `json:"inputs"`
+	Outputs         []abiJSONArg `json:"outputs"`
+	StateMutability string       `json:"stateMutability"`
+	Anonymous       bool         `json:"anonymous"`
+}
+
+func abiCanonType(a abiJSONArg) string {
+	if strings.HasPrefix(a.Type, "tuple") {
+		var parts []string
+		for _, c := range a.Components {
+			parts = append(parts, abiCanonType(c))
+		}
+		return "(" + strings.Join(parts, ",") + ")" + strings.TrimPrefix(a.Type, "tuple")
+	}
+	return a.Type
+}
+
+func (i *interpreter) mkStruct(t types.Type, fields map[string]value) structure {
+	st := zero(t).(structure)
+	ut := t.Underlying().(*types.Struct)
+	for k := 0; k < ut.NumFields(); k++ {
+		if v, ok := fields[ut.Field(k).Name()]; ok {
+			st[k] = v
+		}
+	}
+	return st
+}
+
+func init() {
+	externals[abiPkg+".JSON"] = func(fr *frame, args []value) value {
+		rd := args[0].(iface)
+		// *strings.Reader{s string, i int64, prevRune int}
+		p, ok := rd.v.(*value)
+		if !ok || p == nil {
+			panic(engineError{"abi.JSON: reader is not a *strings.Reader"})
+		}
+		src, ok := (*p).(structure)[0].(string)
+		if !ok {
+			panic(engineError{"abi.JSON: reader is not a *strings.Reader"})
+		}
+		var entries []abiJSONEntry
+		pkg := fr.i.prog.ImportedPackage(abiPkg)
+		abiT := pkg.Type("ABI").Type()
+		if err := json.Unmarshal([]byte(src), &entries); err != nil {
+			return tuple{zero(abiT), fr.i.newError("abi.JSON: "+err.Error(), iface{})}
+		}
+		methodT, eventT, argT := pkg.Type("Method").Type(), pkg.Type("Event").Type(), pkg.Type("Argument").Type()
+		mkArgs := func(as []abiJSONArg) []value {
+			out := make([]value, 0, len(as))
+			for _, a := range as {
+				out = append(out, fr.i.mkStruct(argT, map[string]value{"Name": a.Name, "Indexed": a.Indexed}))
+			}
+			return out
+		}
+		sig := func(name string, as []abiJSONArg) string {
+			var parts []string
+			for _, a := range as {
+				parts = append(parts, abiCanonType(a))
+			}
+			return name + "(" + strings.Join(parts, ",") + ")"
+		}
+		methods := map[value]value{}
+		events := map[value]value{}
+		fields := map[string]value{}
+		for _, e := range entries {
+			switch e.Type {
+			case "function", "":
+				s := sig(e.Name, e.Inputs)
+				id := keccak256([]byte(s))[:4]
+				name := e.Name
+				for k := 0; ; k++ { // overloaded names get a numeric suffix like go-ethereum
+					if _, dup := methods[name]; !dup {
+						break
+					}
+					name = fmt.Sprintf("%s%d", e.Name, k)
+				}
+				methods[name] = fr.i.mkStruct(methodT, map[string]value{"Name": name, "RawName": e.Name, "StateMutability": e.StateMutability,
+					"Constant": e.StateMutability == "view" || e.StateMutability == "pure", "Payable": e.StateMutability == "payable",
+					"Inputs": mkArgs(e.Inputs), "Outputs": mkArgs(e.Outputs), "Sig": s, "str": s, "ID": bytesToElems(id)})
+			case "event":
+				s := sig(e.Name, e.Inputs)
+				id := keccak256([]byte(s))
+				name := e.Name
+				for k := 0; ; k++ {
+					if _, dup := events[name]; !dup {
+						break
+					}
+					name = fmt.Sprintf("%s%d", e.Name, k)
+				}
+				events[name] = fr.i.mkStruct(eventT, map[string]value{"Name": name, "RawName": e.Name, "Anonymous": e.Anonymous,
+					"Inputs": mkArgs(e.Inputs), "Sig": s, "str": s, "ID": array(bytesToElems(id))})
+			case "constructor":
+				fields["Constructor"] = fr.i.mkStruct(methodT, map[string]value{"Inputs": mkArgs(e.Inputs)})
+			}
+		}
+		fields["Methods"] = methods
+		fields["Events"] = events
+		fields["Errors"] = map[value]value{}
+		return tuple{fr.i.mkStruct(abiT, fields), iface{}}
+	}
+	// packing through the ABI / Method objects
+	externals["("+abiPkg+".ABI).Pack"] = func(fr *frame, args []value) value {
+		abiV := args[0].(structure)
+		name := args[1].(string)
+		abiT := fr.i.prog.ImportedPackage(abiPkg).Type("ABI").Type().Underlying().(*types.Struct)
+		var methods map[value]value
+		for k := 0; k < abiT.NumFields(); k++ {
+			if abiT.Field(k).Name() == "Methods" {
+				methods, _ = abiV[k].(map[value]value)
+			}
+		}
+		vals := args[2].([]value)
+		cp := make([]value, len(vals))
+		for i, v := range vals {
+			cp[i] = deepCopy(v, map[*value]*value{})
+		}
+		if name == "" {
+			return tuple{[]value{abiBlob{args: cp}}, iface{}}
+		}
+		m, ok := methods[name]
+		if !ok {
+			return tuple{[]value(nil), fr.i.newError("method '"+name+"' not found", iface{})}
+		}
+		mT := fr.i.prog.ImportedPackage(abiPkg).Type("Method").Type().Underlying().(*types.Struct)
+		var id []value
+		for k := 0; k < mT.NumFields(); k++ {
+			if mT.Field(k).Name() == "ID" {
+				id, _ = m.(structure)[k].([]value)
+			}
+		}
+		out := append(append([]value{}, id...), abiBlob{args: cp})
+		return tuple{out, iface{}}
+	}
+}
+
+// ---------------------------------------------------------------------------------------------
+// go-ethereum core/vm.Contract (call frame as seen by a precompile)
+
+const vmPkg = "github.com/ethereum/go-ethereum/core/vm"
+
+func (i *interpreter) structField(t types.Type, st structure, name string) *value {
+	ut := t.Underlying().(*types.Struct)
+	for k := 0; k < ut.NumFields(); k++ {
+		if ut.Field(k).Name() == name {
+			return &st[k]
+		}
+	}
+	panic(engineError{"no field " + name + " in " + t.String()})
+}
+
+func init() {
+	E := externals
+	contractT := func(fr *frame) types.Type { return fr.i.prog.ImportedPackage(vmPkg).Type("Contract").Type() }
+	refAddr := func(fr *frame, ref value) value {
+		r := ref.(iface)
+		if r.t == nil {
+			panic(rtErr(fr.i, "invalid memory address or nil pointer dereference (nil ContractRef)"))
+		}
+		// vm.AccountRef is a common.Address
+		if a, ok := r.v.(array); ok {
+			return copyVal(a)
+		}
+		if res, ok := fr.i.callMethod(fr, r.t, r.v, "Address"); ok {
+			return res
+		}
+		panic(engineError{"ContractRef.Address on " + r.t.String()})
+	}
+	E[vmPkg+".NewContract"] = func(fr *frame, args []value) value {
+		t := contractT(fr)
+		st := zero(t).(structure)
+		*fr.i.structField(t, st, "CallerAddress") = refAddr(fr, args[0])
+		*fr.i.structField(t, st, "caller") = args[0]
+		*fr.i.structField(t, st, "self") = args[1]
+		*fr.i.structField(t, st, "value") = args[2]
+		*fr.i.structField(t, st, "Gas") = args[3]
+		var v value = st
+		return &v
+	}
+	cget := func(name string) externalFn {
+		return func(fr *frame, args []value) value {
+			p := args[0].(*value)
+			if p == nil {
+				panic(rtErr(fr.i, "invalid memory address or nil pointer dereference (nil *vm.Contract)"))
+			}
+			return *fr.i.structField(contractT(fr), (*p).(structure), name)
+		}
+	}
+	E["(*"+vmPkg+".Contract).Caller"] = func(fr *frame, args []value) value {
+		return copyVal(cget("CallerAddress")(fr, args))
+	}
+	E["(*"+vmPkg+".Contract).Value"] = cget("value")
+	E["(*"+vmPkg+".Contract).Address"] = func(fr *frame, args []value) value {
+		return refAddr(fr, cget("self")(fr, args))
+	}
+	E["("+vmPkg+".AccountRef).Address"] = func(fr *frame, args []value) value { return copyVal(args[0]) }
 }
